@@ -13,6 +13,8 @@ import GlotaranProofs.Lemmas.C13Cov
 import GlotaranProofs.Lemmas.C13Linked
 import GlotaranProofs.Lemmas.C13Own
 import GlotaranProofs.Lemmas.C11
+import GlotaranProofs.Lemmas.C13Gen
+import GlotaranModel.Generated.C13Fns
 import Mathlib.Analysis.Real.Sqrt
 namespace Glotaran.C13
 open Glotaran.LinAlg Glotaran.C02 Matrix
@@ -786,5 +788,523 @@ example : C11.seValue (⟨"k", .fin 2, .ninf, .pinf, true, true, none, .nan⟩ :
   have h0 : 0 ≤ Real.log 2 := Real.log_nonneg (by norm_num)
   have h : ¬ (5 : ℝ) < |Real.log 2| := by rw [abs_of_nonneg h0]; linarith
   simp [h]
+
+/-! ### 8. the source, function by function: `GlotaranModel/Generated/C13Fns.lean` = the hand-written model
+
+`Generated.*` is regenerated from the source text of the statistics code on every run (harness/props/_c13_translate.py):
+one definition per assignment, the body being the Python expression in the vocabulary of `GlotaranModel/C13Py.lean`.
+The theorems below say that every generated definition computes what the hand-written definition — the one the
+theorems of sections 1–7 are about — computes, for all inputs.  The proofs unfold whatever definitions the generated
+file contains (`c13_unfold_generated`, itself generated), rewrite the numpy vocabulary into the model's operations
+(`c13_py_norm`) and finish with `ring` / `omega`: an edit of the source that keeps the value keeps them, an edit that
+changes the value breaks them. -/
+
+/-- the numpy vocabulary in terms of the model's operations -/
+macro "c13_py_norm" : tactic =>
+  `(tactic| simp only [Py.size_eq, Py.len_eq, Py.sumInt_eq, Py.sumVec_powVec_two, Py.npdot_self, Py.npdot_eq_dot,
+      Py.sumMat_powMat_two, Py.maxInitial_zero, Py.finfoEps_eq, Py.pydiv_intCast, Py.idx_shapeMat_zero,
+      Py.idx_shapeMat_one, sqrtRat_eq, Py.maxInt_pair, dot_self_eq])
+
+/-- closes an equation between two spellings of the same number -/
+macro "c13_close" : tactic =>
+  `(tactic| first
+    | rfl
+    | omega
+    | (push_cast <;> ring)
+    | (split_ifs <;> first | rfl | (exfalso; omega) | (simp only [Option.some.injEq] <;> push_cast <;> ring)))
+
+section
+variable {γ : Type}
+
+/-- **`create_result`, integer statistics**: the generated `number_of_residuals`, `number_of_free_parameters`,
+    `number_of_clps` and `degrees_of_freedom` are the fields of `stats` (fed with `fun`, `x.size` and the sum of the
+    groups' clp counts). -/
+theorem generated_counts_eq_model (i : Py.CreateResultIn γ) (nClps : Nat)
+    (hc : (i.groups.map i.number_of_clps).sum = (nClps : Int)) :
+    Generated.cr_number_of_residuals i = ((stats i.res_fun i.res_x.length nClps).nResiduals : Int) ∧
+    Generated.cr_number_of_free_parameters i = ((stats i.res_fun i.res_x.length nClps).nFree : Int) ∧
+    Generated.cr_number_of_clps i = ((stats i.res_fun i.res_x.length nClps).nClps : Int) ∧
+    Generated.cr_degrees_of_freedom i = (stats i.res_fun i.res_x.length nClps).dof := by
+  refine ⟨?_, ?_, ?_, ?_⟩ <;>
+  · c13_unfold_generated
+    try c13_py_norm
+    simp only [stats, hc]
+    try c13_close
+
+/-- **`create_result`, χ², reduced χ², cost**: the generated definitions are the fields of `stats`; `reduced_chi_square`
+    is undefined (`ZeroDivisionError`) exactly when the model's is `none`.  The cost is computed from a second
+    evaluation of the objective (`self.calculate_penalty()`): it is the model's cost when that evaluation returns the
+    optimiser's `fun` (purity of the objective: C10). -/
+theorem generated_statistics_eq_model (i : Py.CreateResultIn γ) (nClps : Nat)
+    (hc : (i.groups.map i.number_of_clps).sum = (nClps : Int)) :
+    Generated.cr_chi_square i = (stats i.res_fun i.res_x.length nClps).chiSquare ∧
+    Generated.cr_reduced_chi_square i = (stats i.res_fun i.res_x.length nClps).reducedChiSquare ∧
+    (i.calculate_penalty = i.res_fun → Generated.cr_cost i = (stats i.res_fun i.res_x.length nClps).cost) := by
+  refine ⟨?_, ?_, ?_⟩
+  · c13_unfold_generated
+    try c13_py_norm
+    simp only [stats]
+    try c13_close
+  · c13_unfold_generated
+    try c13_py_norm
+    simp only [stats, hc]
+    try c13_close
+  · intro hpen
+    c13_unfold_generated
+    try c13_py_norm
+    simp only [stats, hpen, dot_self_eq]
+    try c13_close
+
+/-- **`root_mean_square_error = √(reduced χ²)`** in every number class (`none` = no reduced χ²) -/
+theorem generated_rmse_eq_model {α : Type} [SNum α] (i : Py.CreateResultIn γ) (nClps : Nat)
+    (hc : (i.groups.map i.number_of_clps).sum = (nClps : Int)) :
+    Generated.cr_root_mean_square_error (α := α) i = (stats i.res_fun i.res_x.length nClps).rmse := by
+  have hred := (generated_statistics_eq_model i nClps hc).2.1
+  unfold Generated.cr_root_mean_square_error
+  try simp only [hred]
+  try c13_unfold_generated
+  try c13_py_norm
+  simp only [Stats.rmse, Stats.rmseSq]
+  cases (stats i.res_fun i.res_x.length nClps).reducedChiSquare <;> rfl
+
+end
+
+private theorem natCast_sum_int (l : List Nat) : ((l.map (fun (c : Nat) => (c : Int))).sum) = ((l.sum : Nat) : Int) := by
+  induction l with
+  | nil => rfl
+  | cons a l ih => simp only [List.map_cons, List.sum_cons, ih]; omega
+
+/-- **`create_result` on the scheme model**: fed with the objective of C02 as `fun`, the groups of the scheme and
+    their `groupClps` as `number_of_clps`, the generated statistics are the fields of `createStats` — the record the
+    theorems of sections 1–3 are about. -/
+theorem generated_create_result_eq_createStats (mi : ModelItems) (gs : List Group) (st : Stats)
+    (i : Py.CreateResultIn Group)
+    (h : createStats mi gs i.res_x.length = some st)
+    (hfun : objective mi gs = some i.res_fun) (hg : i.groups = gs)
+    (hn : ∀ g ∈ gs, ∀ c, groupClps mi g = some c → i.number_of_clps g = (c : Int))
+    (hpen : i.calculate_penalty = i.res_fun) :
+    Generated.cr_number_of_residuals i = (st.nResiduals : Int) ∧
+    Generated.cr_number_of_free_parameters i = (st.nFree : Int) ∧
+    Generated.cr_number_of_clps i = (st.nClps : Int) ∧
+    Generated.cr_degrees_of_freedom i = st.dof ∧
+    Generated.cr_chi_square i = st.chiSquare ∧
+    Generated.cr_reduced_chi_square i = st.reducedChiSquare ∧
+    Generated.cr_cost i = st.cost := by
+  obtain ⟨f, c, hf, hcl, rfl⟩ := createStats_some mi gs _ st h
+  rw [hfun] at hf
+  cases Option.some.inj hf
+  have hc : (i.groups.map i.number_of_clps).sum = (c : Int) := by
+    unfold numberOfClps at hcl
+    obtain ⟨per, hper, rfl⟩ := Option.map_eq_some_iff.mp hcl
+    rw [hg, ← Length.mapM_option_map_eq (groupClps mi) (fun (c : Nat) => (c : Int)) i.number_of_clps gs per hper
+      (fun g hgm c hc => (hn g hgm c hc).symm)]
+    exact natCast_sum_int per
+  obtain ⟨h1, h2, h3, h4⟩ := generated_counts_eq_model i c hc
+  obtain ⟨h5, h6, h7⟩ := generated_statistics_eq_model i c hc
+  exact ⟨h1, h2, h3, h4, h5, h6, h7 hpen⟩
+
+/-- the hypotheses of `generated_create_result_eq_createStats` are satisfiable: the 2 × 2 weighted example group has an
+    objective, a clp count and statistics -/
+example : (objective {} [Length.exampleGroup]).isSome = true ∧ (groupClps {} Length.exampleGroup).isSome = true ∧
+    (createStats {} [Length.exampleGroup] 1).isSome = true := by decide +kernel
+
+/-- non-vacuity: residuals (3, 4, 0), one free parameter, two groups with 1 + 0 clps: dof = 1, χ² = 25, cost = 25/2 -/
+example :
+    let i : Py.CreateResultIn Nat := ⟨[3, 4, 0], [7], [1, 0], fun g => (g : Int), [3, 4, 0]⟩
+    (i.groups.map i.number_of_clps).sum = ((1 : Nat) : Int) ∧ i.calculate_penalty = i.res_fun ∧
+    Generated.cr_degrees_of_freedom i = 1 ∧ Generated.cr_chi_square i = 25 ∧
+    Generated.cr_reduced_chi_square i = some 25 ∧ Generated.cr_cost i = 25 / 2 := by
+  decide +kernel
+
+/-! the covariance function -/
+
+section
+variable {α : Type} [SNum α]
+
+/-- **the cut-off**: the generated `jacobian_sv_square`, `threshold` and `mask` are `s²`, the model's *relative*
+    `threshold` (`eps · max(shape) · s_max`) and the model's mask `s > threshold` -/
+theorem generated_cutoff_eq_model (i : Py.CovarianceIn α) (sv : Vec) (m n : Nat)
+    (hs : i.svd_s = sv) (hshape : i.jacobian_shape = [(m : Int), (n : Int)]) :
+    Generated.cov_jacobian_sv_square i = sv.map (fun s => s * s) ∧
+    Generated.cov_threshold i = threshold sv m n ∧
+    Generated.cov_mask i = svMask sv m n := by
+  have hthr : Generated.cov_threshold i = threshold sv m n := by
+    c13_unfold_generated
+    simp only [hs, hshape]
+    try c13_py_norm
+    simp only [threshold]
+    try c13_close
+  refine ⟨?_, hthr, ?_⟩
+  · c13_unfold_generated
+    simp only [hs]
+    try c13_py_norm
+    try simp only [Py.powVec_two]
+  · unfold Generated.cov_mask
+    try simp only [hthr]
+    try c13_unfold_generated
+    simp only [hs]
+    try c13_py_norm
+    first
+    | rfl
+    | exact Py.gtScalar_threshold sv m n
+
+/-- **the covariance matrix**: what the function returns, read as a matrix, is the model's `covariance` of the
+    singular values and right singular vectors (`Vt` with `n` columns and a row per singular value) -/
+theorem generated_covariance_eq_model (i : Py.CovarianceIn α) (sv : Vec) (vt : Mat) (m n : Nat)
+    (hs : i.svd_s = sv) (hvt : i.svd_vt = Py.Arr.ofMat n vt) (hshape : i.jacobian_shape = [(m : Int), (n : Int)])
+    (hlen : vt.length = sv.length) :
+    (Generated.cov_returned i).toMat = covariance sv vt m n := by
+  obtain ⟨hsq, _, hmask⟩ := generated_cutoff_eq_model i sv m n hs hshape
+  c13_unfold_generated at hsq hmask
+  c13_unfold_generated
+  simp only [hsq, hmask, hvt]
+  exact Py.covariance_pipeline sv vt n _ hlen
+
+/-- **optimiser-space standard errors**: the generated `standard_errors` are `rmse · √(diag C)` of the model's
+    covariance matrix -/
+theorem generated_standard_errors_eq_model (i : Py.CovarianceIn α) (sv : Vec) (vt : Mat) (m n : Nat)
+    (hs : i.svd_s = sv) (hvt : i.svd_vt = Py.Arr.ofMat n vt) (hshape : i.jacobian_shape = [(m : Int), (n : Int)])
+    (hlen : vt.length = sv.length) :
+    Generated.cov_standard_errors i = standardErrors i.root_mean_square_error (covariance sv vt m n) := by
+  have hcov := generated_covariance_eq_model i sv vt m n hs hvt hshape hlen
+  have hshape' : (Generated.cov_covariance_matrix i).rows.length = n ∧ (Generated.cov_covariance_matrix i).cols = n := by
+    c13_unfold_generated
+    simp only [hvt]
+    exact Py.pipeline_shape vt n _ _
+  unfold Generated.cov_standard_errors
+  rw [Py.diag_of_toMat _ n hshape'.1 hshape'.2]
+  unfold Generated.cov_returned at hcov
+  rw [hcov]
+  simp only [standardErrors, Py.scaleVec, Py.sqrtVec, List.map_map]
+  rfl
+
+/-- **the value stored in `parameter.standard_error`** by one pass of the loop body is C11's `seValue` -/
+theorem generated_stored_standard_error_eq_model (p : C11.Parameter α) (v e : α) (hv : p.value = .fin v) :
+    C11.seValue p e = .fin (Generated.se_stored ⟨p.nonNeg, v, e⟩) := by
+  unfold C11.seValue
+  c13_unfold_generated
+  simp only [hv]
+  cases p.nonNeg <;> rfl
+
+end
+
+/-- **`rmse · √Cᵢᵢ` over ℝ is the square root of the radicand `rmse² · Cᵢᵢ`** the rational model returns (`errSq`) -/
+theorem standard_errors_sqrt_of_radicands (r : ℚ) (hr : 0 ≤ r) (cov : Mat) :
+    standardErrors (Real.sqrt (r : ℝ)) cov = (errSq r cov).map (fun q => Real.sqrt ((q : ℚ) : ℝ)) := by
+  simp only [standardErrors, errSq, List.map_map]
+  apply List.map_congr_left
+  intro k _
+  simp only [Function.comp]
+  show Real.sqrt (r : ℝ) * Real.sqrt (((cov.getD k []).getD k 0 : ℚ) : ℝ) = _
+  rw [Rat.cast_mul, Real.sqrt_mul (by exact_mod_cast hr)]
+
+/-- non-vacuity: J with s = (2, 1), rotated `Vt`, 3 × 2 — the generated pipeline gives the matrix of section 6 -/
+example :
+    let i : Py.CovarianceIn ℝ := ⟨[3, 2], [2, 1], Py.Arr.ofMat 2 [[3/5, 4/5], [-4/5, 3/5]], 1⟩
+    (Generated.cov_returned i).toMat = [[73/100, -9/25], [-9/25, 13/25]] := by
+  decide +kernel
+
+/-! the RMSE attributes of a result dataset -/
+
+/-- **per-dataset RMSE**: the generated `size`, `root_mean_square_error` and `weighted_root_mean_square_error` are the
+    model's `datasetStats` (square roots of its radicands) -/
+theorem generated_dataset_rmse_eq_model {α : Type} [SNum α] (r : C03.DsResult) :
+    Generated.ds_size ⟨r.residual, r.weighted⟩ = ((datasetStats r).size : Int) ∧
+    Generated.ds_root_mean_square_error (α := α) ⟨r.residual, r.weighted⟩ = (datasetStats r).rmse ∧
+    Generated.ds_weighted_root_mean_square_error (α := α) ⟨r.residual, r.weighted⟩ = (datasetStats r).wrmse := by
+  have hsize : Generated.ds_size ⟨r.residual, r.weighted⟩ = ((datasetStats r).size : Int) := by
+    c13_unfold_generated
+    try c13_py_norm
+    simp only [datasetStats]
+    try c13_close
+  have hrm : Generated.ds_root_mean_square_error (α := α) ⟨r.residual, r.weighted⟩ = (datasetStats r).rmse := by
+    unfold Generated.ds_root_mean_square_error
+    try simp only [hsize]
+    try c13_unfold_generated
+    try c13_py_norm
+    simp only [DsStats.rmse, datasetStats]
+    try (congr 1 <;> c13_close)
+  refine ⟨hsize, hrm, ?_⟩
+  unfold Generated.ds_weighted_root_mean_square_error
+  try simp only [hsize, hrm]
+  try c13_unfold_generated
+  try c13_py_norm
+  cases hw : r.weighted with
+  | none => simp only [DsStats.wrmse, DsStats.rmse, datasetStats, hw]
+  | some w =>
+    simp only [DsStats.wrmse, datasetStats, hw]
+    try (congr 1 <;> c13_close)
+
+example : Generated.ds_size ⟨[[1, 2], [3, 4]], some [[2, 4], [6, 8]]⟩ = 4 := by decide +kernel
+
+/-! `number_of_clps` of the matrix providers -/
+
+private theorem natCast_map_sum {β : Type} (l : List β) (f : β → Nat) :
+    (l.map (fun p => ((f p : Nat) : Int))).sum = (((l.map f).sum : Nat) : Int) := by
+  rw [← natCast_sum_int, List.map_map]; rfl
+
+private theorem foldl_add_map {β : Type} (l : List β) (f : β → Int) (a : Int) :
+    l.foldl (fun acc d => acc + f d) a = a + (l.map f).sum := by
+  induction l generalizing a with
+  | nil => simp
+  | cons x xs ih => simp only [List.foldl_cons, List.map_cons, List.sum_cons, ih]; omega
+
+/-- **`MatrixProviderLinked.number_of_clps`**: the generated sum over `range(len(aligned_global_axis))` of the label
+    counts of the aligned matrix containers is the model's `groupClps` of a linked group (the container at index `k`
+    being the model's reduced problem at the `k`-th aligned value) -/
+theorem generated_linked_number_of_clps_eq_model (mi : ModelItems) (g : Group) (axis : List Rat) (ps : List IndexProblem)
+    (hl : g.linked = true) (h : linkedProblems mi g = some (axis, ps))
+    (i : Py.LinkedClpsIn) (hax : i.aligned_global_axis = axis)
+    (hlab : ∀ (k : Nat) (hk : k < ps.length), i.aligned_clp_labels (k : Int) = ps[k].reduced.labels) :
+    (groupClps mi g).map (fun (c : Nat) => (c : Int)) = some (Generated.linked_number_of_clps i) := by
+  obtain ⟨hx, _⟩ := linkedProblems_labels mi g axis ps h
+  have hlen : Py.len axis = Py.len ps := by rw [← hx]; simp [Py.len]
+  unfold groupClps
+  simp only [hl, if_true, h, Option.map_some]
+  c13_unfold_generated
+  rw [Py.sumInt_eq, hax, hlen,
+    Py.sum_range_len ps _ (fun p => ((p.reduced.labels.length : Nat) : Int))
+      (fun k hk => by rw [hlab k hk]; rfl)]
+  rw [natCast_map_sum]
+
+/-- **`MatrixProviderUnlinked.number_of_clps`**: the generated loop (`|model labels| · |global labels|` for a dataset
+    with a global model, else the sum over its global axis of the label counts of the prepared containers) is the
+    model's `groupClps` of an unlinked group -/
+theorem generated_unlinked_number_of_clps_eq_model (mi : ModelItems) (g : Group) (c : Nat)
+    (hl : g.linked = false) (h : groupClps mi g = some c)
+    (i : Py.UnlinkedClpsIn Dataset) (hd : i.dataset_models = g.datasets)
+    (hglob : ∀ d ∈ g.datasets, i.has_global_model d = !d.gmcs.isEmpty)
+    (hfull : ∀ d ∈ g.datasets, ∀ lm gm, datasetMatrix d.mcs = some lm → datasetMatrix d.gmcs = some gm →
+      i.model_clp_labels d = lm.labels ∧ i.global_clp_labels d = gm.labels)
+    (hidx : ∀ d ∈ g.datasets, ∀ ps, unlinkedProblems mi d = some ps →
+      (i.global_axis d).length = ps.length ∧
+      ∀ (k : Nat) (hk : k < ps.length), i.prepared_clp_labels d (k : Int) = ps[k].reduced.labels) :
+    Generated.unlinked_number_of_clps i = (c : Int) := by
+  unfold groupClps at h
+  simp only [hl, Bool.false_eq_true, if_false] at h
+  obtain ⟨per, hper, rfl⟩ := Option.map_eq_some_iff.mp h
+  c13_unfold_generated
+  simp only [← add_ite, foldl_add_map, hd, Int.zero_add]
+  rw [← natCast_sum_int, ← Length.mapM_option_map_eq (datasetClps mi) (fun (k : Nat) => (k : Int)) _ g.datasets per hper]
+  intro d hdm k hk
+  unfold datasetClps at hk
+  rw [hglob d hdm]
+  cases hg : d.gmcs.isEmpty with
+  | false =>
+    simp only [hg, Bool.not_false, if_true] at hk ⊢
+    cases hlm : datasetMatrix d.mcs with
+    | none => simp [hlm] at hk
+    | some lm =>
+      cases hgm : datasetMatrix d.gmcs with
+      | none => simp [hlm, hgm] at hk
+      | some gm =>
+        simp only [hlm, hgm, Option.some.injEq] at hk
+        obtain ⟨h1, h2⟩ := hfull d hdm lm gm hlm hgm
+        rw [h1, h2, ← hk]
+        simp [Py.len]
+  | true =>
+    simp only [hg, Bool.not_true, Bool.false_eq_true, if_false] at hk ⊢
+    obtain ⟨ps, hps, rfl⟩ := Option.map_eq_some_iff.mp hk
+    obtain ⟨hlen, hlab⟩ := hidx d hdm ps hps
+    have hlen' : Py.len (i.global_axis d) = Py.len ps := by simp [Py.len, hlen]
+    rw [Py.sumInt_eq, hlen',
+      Py.sum_range_len ps _ (fun p => ((p.reduced.labels.length : Nat) : Int))
+        (fun k hk => by rw [hlab k hk]; rfl)]
+    rw [natCast_map_sum]
+
+/-- the hypotheses of the two theorems are satisfiable: the linked example group has aligned problems, the unlinked one a count -/
+example : (linkedProblems {} exLinked).isSome = true ∧ exLinked.linked = true ∧
+    (groupClps {} Length.exampleGroup).isSome = true ∧ Length.exampleGroup.linked = false := by decide +kernel
+
+/-- non-vacuity: two datasets, the first with a global model (2 · 3 labels), the second with 2 + 1 labels on two indices -/
+example :
+    let i : Py.UnlinkedClpsIn Nat :=
+      ⟨[0, 1], fun d => d == 0, fun _ => ["a", "b"], fun _ => ["g1", "g2", "g3"], fun _ => [5, 6],
+       fun _ k => if k = 0 then ["a", "b"] else ["a"]⟩
+    Generated.unlinked_number_of_clps i = 2 * 3 + (2 + 1) := by decide +kernel
+
+example :
+    let i : Py.LinkedClpsIn := ⟨[1, 2, 3], fun k => if k = 1 then ["a"] else ["a", "b"]⟩
+    Generated.linked_number_of_clps i = 2 + 1 + 2 := by decide +kernel
+
+/-! ### 9. what a user reads off a `Result`: per-dataset RMSE and the global χ² -/
+
+/-- **χ² from the per-dataset weighted RMSEs**: for any mixture of linked and unlinked groups (`GroupOK`), weighted or
+    not, χ² = Σ_datasets size_d · (weighted RMSE_d)² + Σ penalties² — `size_d` = |model axis| · |global axis| of the
+    result dataset, the weighted RMSE being the attribute `weighted_root_mean_square_error` (equal to
+    `root_mean_square_error` for a dataset without weight).  Hence reduced χ² · dof and RMSE² · dof are the same sum.
+    If no dataset has a weight the same holds with the unweighted `root_mean_square_error`. -/
+theorem chi_square_from_dataset_rmse (mi : ModelItems) (gs : List Group) (k : Nat) (st : Stats)
+    (rs : List C03.DsResult) (hok : ∀ g ∈ gs, GroupOK g)
+    (h : createStats mi gs k = some st) (hr : C03.resultsOwn mi gs = some rs)
+    (hs : ∀ r ∈ rs, (datasetStats r).size ≠ 0) :
+    ∃ pens, additionalPenalty mi gs = some pens ∧
+      st.chiSquare = (rs.map (fun r => ((datasetStats r).size : Rat) * (datasetStats r).wrmseSq)).sum
+        + (pens.map sumOfSquares).sum ∧
+      ((∀ r ∈ rs, r.weighted = none) →
+        st.chiSquare = (rs.map (fun r => ((datasetStats r).size : Rat) * (datasetStats r).rmseSq)).sum
+          + (pens.map sumOfSquares).sum) ∧
+      (∀ red, st.reducedChiSquare = some red →
+        red * (st.dof : Rat) = (rs.map (fun r => ((datasetStats r).size : Rat) * (datasetStats r).wrmseSq)).sum
+          + (pens.map sumOfSquares).sum) := by
+  obtain ⟨pens, hadd, hchi, _⟩ := chi_square_over_result_datasets mi gs k st rs hok h hr
+  have hw : (rs.map (fun r => matSumSq (weightedResidual r))) =
+      rs.map (fun r => ((datasetStats r).size : Rat) * (datasetStats r).wrmseSq) := by
+    apply List.map_congr_left
+    intro r hrm
+    rw [← (dataset_rmse_formula r (hs r hrm)).2.2.1]; ring
+  have hchi' : st.chiSquare = (rs.map (fun r => ((datasetStats r).size : Rat) * (datasetStats r).wrmseSq)).sum
+      + (pens.map sumOfSquares).sum := by rw [hchi, hw]
+  refine ⟨pens, hadd, hchi', ?_, ?_⟩
+  · intro hnone
+    rw [hchi']
+    congr 2
+    apply List.map_congr_left
+    intro r hrm
+    rw [(dataset_rmse_formula r (hs r hrm)).2.2.2.1 (hnone r hrm)]
+  · intro red hred
+    obtain ⟨f, c, _, _, rfl⟩ := createStats_some mi gs k st h
+    rw [← hchi']
+    by_cases hd : (stats f k c).dof = 0
+    · rw [(reduced_chi_square_formula f k c).1 hd] at hred; cases hred
+    · obtain ⟨r', hr', _, hmul, _⟩ := (reduced_chi_square_formula f k c).2 hd
+      rw [hr'] at hred; cases hred; exact hmul
+
+/-- the linked group and the full-model group of section 2b with the penalty: χ² from the three datasets' sizes and
+    weighted RMSE radicands -/
+example :
+    (C03.resultsOwn exMi [exLinked, exFull]).map (fun rs => rs.map (fun r => ((datasetStats r).size, (datasetStats r).wrmseSq))) =
+      some [(4, 4059 / 3481 / 4), (6, 32761 / 73101 / 6), (6, 1837 / 427 / 6)] ∧
+    (createStats exMi [exLinked, exFull] 1).map (·.chiSquare) =
+      some (4 * (4059 / 3481 / 4) + 6 * (32761 / 73101 / 6) + 6 * (1837 / 427 / 6) + 7936 / 1239 * (7936 / 1239)) := by
+  refine ⟨by decide +kernel, by decide +kernel⟩
+
+/-- **the unweighted RMSE of a weighted dataset does not add up to χ²** (it is the RMSE of `weighted_residual / weight`):
+    residual [[1, 2], [3, 4]], weight 2 — Σ weighted_residual² = 120 but size · RMSE² = 30 -/
+theorem unweighted_rmse_not_chi_square_counterexample :
+    let r : C03.DsResult := ⟨"a", ["c"], [], [[1, 2], [3, 4]], some [[2, 4], [6, 8]], []⟩
+    matSumSq (weightedResidual r) = 120 ∧ ((datasetStats r).size : Rat) * (datasetStats r).wrmseSq = 120 ∧
+    ((datasetStats r).size : Rat) * (datasetStats r).rmseSq = 30 := by
+  decide +kernel
+
+/-! ### 10. edge cases the property quantifies over -/
+
+/-- **the statistics are total**: whatever the sizes — no residuals, no free parameter (empty Jacobian), more
+    parameters and clps than points — `stats` has a value; the only undefined quantity is reduced χ² (and with it the
+    RMSE and the standard errors) at dof = 0, where the code raises `ZeroDivisionError` and no `Result` exists. -/
+theorem stats_total (f : Vec) (nFree nClps : Nat) :
+    ((stats f nFree nClps).reducedChiSquare = none ↔ f.length = nFree + nClps) ∧
+    ((stats f nFree nClps).reducedChiSquare.isSome ↔ f.length ≠ nFree + nClps) := by
+  have hd : (stats f nFree nClps).dof = 0 ↔ f.length = nFree + nClps := by rw [stats_dof]; omega
+  constructor
+  · constructor
+    · intro h
+      by_contra hne
+      obtain ⟨r, hr, _⟩ := (reduced_chi_square_formula f nFree nClps).2 (fun h0 => hne (hd.mp h0))
+      rw [h] at hr; cases hr
+    · intro h; exact (reduced_chi_square_formula f nFree nClps).1 (hd.mpr h)
+  · constructor
+    · intro h hne
+      rw [(reduced_chi_square_formula f nFree nClps).1 (hd.mpr hne)] at h; cases h
+    · intro h
+      obtain ⟨r, hr, _⟩ := (reduced_chi_square_formula f nFree nClps).2 (fun h0 => h (hd.mp h0))
+      rw [hr]; rfl
+
+/-- **more parameters and clps than points: no RMSE** — with a non-zero residual the reduced χ² is negative, so no
+    real number is its square root (numpy reports `nan` for the RMSE and for every standard error; the report shows
+    `nan`).  The formula `RMSE = √(reduced χ²)` has no value there; the property's quantifier (a fit with noise) has
+    dof > 0. -/
+theorem negative_dof_has_no_rmse (f : Vec) (nFree nClps : Nat) (hneg : (stats f nFree nClps).dof < 0)
+    (hf : sumOfSquares f ≠ 0) :
+    ∃ r, (stats f nFree nClps).rmseSq = some r ∧ r < 0 ∧ ∀ x : ℝ, x * x ≠ (r : ℝ) := by
+  obtain ⟨r, _, hr, hmul, _⟩ := (reduced_chi_square_formula f nFree nClps).2 (ne_of_lt hneg)
+  have hchi : 0 < (stats f nFree nClps).chiSquare := by
+    rw [stats_chi]; exact lt_of_le_of_ne (sumOfSquares_nonneg f) (Ne.symm hf)
+  have hd : ((stats f nFree nClps).dof : Rat) < 0 := by exact_mod_cast hneg
+  have hr0 : r < 0 := by
+    by_contra hge
+    have : r * ((stats f nFree nClps).dof : Rat) ≤ 0 := mul_nonpos_of_nonneg_of_nonpos (not_lt.mp hge) (le_of_lt hd)
+    rw [hmul] at this
+    exact absurd hchi (not_lt.mpr this)
+  refine ⟨r, hr, hr0, ?_⟩
+  intro x hx
+  have : (0 : ℝ) ≤ x * x := mul_self_nonneg x
+  rw [hx] at this
+  have : (r : ℝ) < 0 := by exact_mod_cast hr0
+  linarith
+
+example : (stats [3, 4] 2 1).dof = -1 ∧ (stats [3, 4] 2 1).rmseSq = some (-25) := by decide +kernel
+
+/-- **a parameter the model does not depend on** (its column of the Jacobian is zero — a singular direction): its row
+    and column of the covariance matrix are zero, so its optimiser-space standard error `rmse · √Cⱼⱼ` is 0 — not
+    `inf`, not `nan` (and a non-negative parameter then stores `v · (e⁰ − 1) = 0` as well).  Needs only `UᵀU = 1` and
+    `J = U·diag(s)·Vt`. -/
+theorem stderr_of_singular_direction {mm : Nat} (sv : Vec) (vt : Mat) (m n : Nat)
+    (U : Matrix (Fin mm) (Fin (sv.zip vt).length) ℚ) (J : Matrix (Fin mm) (Fin n) ℚ)
+    (hU : Uᵀ * U = 1) (hJ : J = U * diagonal (sigmaFn sv vt) * vtMatrix sv vt n)
+    (j : Fin n) (hcol : ∀ i, J i j = 0) (r : ℚ) :
+    (∀ l, covMatrix sv vt m n j l = 0) ∧ (∀ l, covMatrix sv vt m n l j = 0) ∧ r * covMatrix sv vt m n j j = 0 := by
+  have key : ∀ k, sigmaFn sv vt k * vtMatrix sv vt n k j = 0 := by
+    intro k
+    have h1 : (Uᵀ * J) k j = 0 := by
+      rw [Matrix.mul_apply]
+      exact Finset.sum_eq_zero (fun i _ => by rw [hcol i]; ring)
+    have h2 : Uᵀ * J = diagonal (sigmaFn sv vt) * vtMatrix sv vt n := by
+      rw [hJ, ← Matrix.mul_assoc, ← Matrix.mul_assoc, hU, Matrix.one_mul]
+    rw [h2, Matrix.diagonal_mul] at h1
+    exact h1
+  have zero : ∀ k, vtMatrix sv vt n k j * cw (kept sv m n) (sigmaFn sv vt k) = 0 := by
+    intro k
+    unfold cw
+    by_cases hk : kept sv m n (sigmaFn sv vt k) = true
+    · have hne := kept_ne_zero sv m n _ hk
+      rcases mul_eq_zero.mp (key k) with h | h
+      · exact absurd h hne
+      · rw [h]; ring
+    · simp [hk]
+  have row : ∀ l, covMatrix sv vt m n j l = 0 := by
+    intro l
+    rw [covariance_eq_sandwich, sandwich_apply]
+    exact Finset.sum_eq_zero (fun k _ => by rw [zero k]; ring)
+  have col : ∀ l, covMatrix sv vt m n l j = 0 := by
+    intro l
+    have := congrFun (congrFun (covariance_symm sv vt m n) j) l
+    rw [Matrix.transpose_apply] at this
+    rw [this]; exact row l
+  exact ⟨row, col, by rw [row j]; ring⟩
+
+/-- the rank-2 Jacobian of section 6 (its third column is zero): third row and column of the covariance vanish -/
+example : (∀ l, covMatrix exSv exVt 4 3 2 l = 0) ∧ (covariance exSv exVt 4 3).getD 2 [] = [0, 0, 0] := by
+  refine ⟨(stderr_of_singular_direction exSv exVt 4 3 exU _ exU_orth rfl 2 ?_ 1).1, by decide +kernel⟩
+  intro i
+  fin_cases i <;> decide +kernel
+
+/-! ### 11. the report -/
+
+/-- what the report has to show: row label ↦ field of the `Result` -/
+def reportSpec : List (String × String) :=
+  [("Number of residuals", "number_of_residuals"), ("Number of free parameters", "number_of_free_parameters"),
+   ("Number of conditionally linear parameters", "number_of_clps"), ("Degrees of freedom", "degrees_of_freedom"),
+   ("Chi Square", "chi_square"), ("Reduced Chi Square", "reduced_chi_square"),
+   ("Root Mean Square Error (RMSE)", "root_mean_square_error")]
+
+/-- **`Result.markdown` shows the statistics of the Result** (table regenerated from the source of `markdown`): every
+    statistic has its row, the row reads the field of that name, and a number — zero included — is shown as that number;
+    the per-dataset table puts `weighted_root_mean_square_error` under "weighted" and `root_mean_square_error` under
+    "unweighted". -/
+theorem report_shows_the_statistics :
+    (∀ lf ∈ reportSpec, lf ∈ Generated.reportRows.map (fun r => (r.1, r.2.1))) ∧
+    (∀ r ∈ Generated.reportRows, ∀ x : Rat, shownValue r.2.2 (some x) = some x) ∧
+    Generated.rmseColumns = [("weighted", "weighted_root_mean_square_error"), ("unweighted", "root_mean_square_error")] ∧
+    Generated.rmseFloatFmt = ".2e" := by
+  refine ⟨by decide, ?_, by decide, by decide⟩
+  intro r hr x
+  have hk : r.2.2 = "plain" ∨ r.2.2 = "none-to-nan:.2e" := by
+    revert r
+    decide
+  rcases hk with h | h <;> simp [shownValue, h]
+
+/-- regression (fix C13-report-zero-statistics): `x or np.nan` showed a statistic that is exactly 0 as "nan" -/
+example : shownValue "falsy-to-nan:.2e" (some 0) = none ∧ shownValue "none-to-nan:.2e" (some 0) = some 0 := by decide
 
 end Glotaran.C13
